@@ -385,11 +385,15 @@ def eucTwDecodeLoop (cns : CnsTable) : Nat → Nat → List UInt8 → Except (Na
 def eucTwDecode (cns : CnsTable) (bs : List UInt8) : Except (Nat × Bool) (List Nat) :=
   eucTwDecodeLoop cns bs.length 0 bs
 
-/-- the bytes a character is written as -/
+/-- glibc's conversion skeleton drops the Unicode TAG characters U+E0000..U+E007F when the target charset has no code for
+    them (`STANDARD_TO_LOOP_ERR_HANDLER`: `(ch >> 7) == (0xe0000 >> 7)` → `continue`) -/
+def isTag (c : Nat) : Bool := c / 128 == 0xE0000 / 128
+
+/-- the bytes a character is written as (`some []`: silently dropped) -/
 def eucTwEncodeChar (inv : CnsInverse) (c : Nat) : Option (List UInt8) :=
   if c ≤ 0x7F then some [UInt8.ofNat c]
   else match inv c with
-    | none => none
+    | none => if isTag c then some [] else none
     | some (p, r, k) =>
       if p = 1 then some [UInt8.ofNat r, UInt8.ofNat k]
       else some [0x8E, UInt8.ofNat (0xA0 + p), UInt8.ofNat r, UInt8.ofNat k]
